@@ -15,6 +15,13 @@ def has_handler(prog, scripts, src):
     return (sc.get("schema") or "work") != "nocancel"
 
 
+def zero_timeout(prog, src):
+    for s in prog.all_plugin_steps():
+        if s.src == src and s.field("closure_wait_timeout") == 0:
+            return True
+    return False
+
+
 def closure_sum(prog):
     tot = 0
     for s in prog.all_plugin_steps():
@@ -56,7 +63,8 @@ def monitor_cancel(case, res, sem, g):
         if normal_end and end["seq"] < close_seq[c] and (c not in signals or end["seq"] < signals[c]):
             # finished by itself before any signal: nothing to check... unless it ended only because it was signalled
             continue
-        if has_handler(sem.p, case["scripts"], e["src"]):
+        if has_handler(sem.p, case["scripts"], e["src"]) and not zero_timeout(sem.p, e["src"]):
+            # (with a closure timeout of 0 the step is closed by force at once: the signal is sent, but nothing says it arrives first)
             if c not in signals or signals[c] > close_seq[c]:
                 vs.append(mon.V("C06", "signal@missing", "plugin %s (conn %d) was executing when the run was cancelled, declares the cancel handler, but was closed (seq %d) without a cancel signal" % (e["src"], c, close_seq[c])))
     # (c) nothing left executing
@@ -123,6 +131,10 @@ def run(check):
                                  {"case": case, "death": {k: d[k] for k in ("kind", "key")}, "detail": d.get("detail", "")[:4000]})
                 elif d["kind"] in ("timeout", "exit", "harness"):
                     check.inconclusive_case(cid, d["kind"])
+                elif d["kind"] in ("panic", "fatal"):
+                    # the cancelled run never returned: the process died (also reported by C07 for the same workload without cancellation)
+                    check.report("crash-after-cancel@" + d["key"], "process died after the run was cancelled in case %s (%s): %s" % (cid, g["shape"], d.get("message", "")[:200]),
+                                 {"case": case, "death": {k: d[k] for k in ("kind", "key")}, "detail": d.get("detail", "")[:4000]})
                 else:
                     check.inconclusive_case(cid, "died with %s (%s): belongs to %s" % (d["kind"], key, prop))
                 continue
